@@ -157,6 +157,17 @@ def text_view(v):
     return str(v)
 
 
+def poison(rng, tmp):
+    """another text handled just before: an EEMS 2.0 file that loads, or one that is rejected after its first command"""
+    from mpilot.program import Program
+    t = 'READ(InFileName = "in.csv", InFieldName = a)\nCVTTOFUZZY(InFieldName = a, NewFieldName = Fz, OutFileName = "o.csv")\n'
+    t += rng.choice(["", "NOT(InFieldName = Fz, NewFieldName = N1\n", "X = = 1\n", "Y = NoSuchCommand(A = 1)\n"])
+    try:
+        Program.from_source(t, libraries=LIBS, working_dir=tmp)
+    except Exception:
+        pass
+
+
 def run(ctx):
     ctx.check_proofs(["MPilot.Props.C15", "MPilot.Props.C15Program"])
     model = common.Model()
@@ -194,7 +205,9 @@ def run(ctx):
             lines.append(model_line(p, classes)); texts.append(t); descs.append(desc)
         except ValueError:
             ctx.count("not_encodable")
-        # --- round trip on the implementation
+        # --- round trip on the implementation (now and then right after another text was rejected or loaded: no load depends on the one before)
+        if rng.random() < 0.3:
+            poison(rng, tmp)
         try:
             q = Program.from_source(t, libraries=LIBS, working_dir=tmp)
         except Exception as e:
@@ -223,6 +236,13 @@ def run(ctx):
                 except Exception as e:
                     o = progrun.classify(e).split(":")[1] if ":" in progrun.classify(e) else progrun.classify(e)
             outs.append((o, list(rec.log)))
+            # running a program does not change what it serialises to
+            try:
+                after = pr.to_string()
+            except Exception as e:
+                after = "<to_string raised %s>" % type(e).__name__
+            if after != t and pr is p:
+                ctx.fail("to_string() differs after the program was run: the run changed the program's arguments", dict(desc, after_run=after[:800]))
         if outs[0] != outs[1]:
             ctx.fail("original and reloaded program behave differently when run: %r vs %r" % (outs[0][0], outs[1][0]), desc)
     answers = model.ask(lines)
@@ -251,8 +271,12 @@ def run(ctx):
             cmds.append(("Rn", "EEMSRead", [("InFileName", "in.csv"), ("InFieldName", "b"), ("NewFieldName", "renamed")]))
         sc = progrun.Scenario(cmds, wd=tmp, libs=LIBS)
         try:
+            if rng.random() < 0.5:
+                poison(rng, tmp)
             p = Program.from_source(sc.source, libraries=LIBS, working_dir=tmp)
             t = p.to_string()
+            if rng.random() < 0.5:
+                poison(rng, tmp)
             q = Program.from_source(t, libraries=LIBS, working_dir=tmp)
         except Exception as e:
             ctx.fail("EEMS model: serialise/load failed: %s" % progrun.classify(e), {"source": sc.source})
